@@ -37,7 +37,7 @@ def run(prog):
         fns = [f for f in prog.by_npath.get(path, []) if f.unit.endswith("-lib.json")]
         if len(fns) != 1:
             raise CheckerError("PR: %s not found" % path)
-        fn = fns[0]
+        fn = prog.default_args_worker(fns[0])
         te = fn.terms
         gens = [cs for cs in te.calls if cs.callee.name == "all" and "Primes" in cs.callee.key()]
         errs = []
